@@ -237,6 +237,7 @@ pub fn strat_i64() -> BoxedStrategy<i64> {
             let v = (1i64 << k).saturating_add(d);
             if neg { -v } else { v }
         }),
+        3 => gen::tie_i64(),
         5 => (0u32..=62, any::<u64>(), any::<bool>()).prop_map(|(k, r, neg)| {
             let lo = 1u64 << k;
             let v = (lo + (r % lo)) as i64;
@@ -308,7 +309,43 @@ impl Property for C18 {
                 }
             }
         }
-        vec![format!("49 units x try_from conversions x 4 values, 49 units x mixed operator forms, 16x16 boundary operands x integer/conversion forms ({} cases)", n)]
+        // result-targeted pairs: the exact result is i64::MAX, MAX-1, MIN or MIN+1 (2^63-1 = 7^2*73*127*337*92737*649657)
+        let max = i64::MAX;
+        let divisors: [i64; 12] = [1, 7, 49, 73, 127, 337, 511, 889, 9271, 92737, 649657, 2147483647 / 1];
+        for f in INT_FORMS {
+            let mut pairs: Vec<(i64, i64)> = Vec::new();
+            use IntForm::*;
+            match f {
+                TAddT | TAddAssignT | DAddD | DAddAssignD => {
+                    for x in [0i64, 1, 7, 1 << 40, max / 2] {
+                        pairs.extend([(max - x, x), (max - 1 - x, x), (i64::MIN + x, -x), (i64::MIN + 1 + x, -x)]);
+                    }
+                }
+                TSubT | TSubAssignT | DSubD | DSubAssignD => {
+                    for x in [0i64, 1, 7, 1 << 40, max / 2] {
+                        pairs.extend([(max - x, -x), (i64::MIN + x, x), (max - 1 - x, -x)]);
+                    }
+                }
+                TMulD | TMulAssignD | DMulT | DMulD | DMulAssignD => {
+                    for d in divisors {
+                        if max % d == 0 {
+                            pairs.extend([(max / d, d), (d, max / d), (-(max / d), -d), (max / d, -d)]);
+                        }
+                    }
+                    for k in 0..=62u32 {
+                        pairs.push((-(1i64 << k), 1i64 << (63 - k).min(62)));
+                    }
+                    pairs.extend([(i64::MIN / 2, 2), (2, i64::MIN / 2), (i64::MIN / 4, 4)]);
+                }
+                TDivD | TDivAssignD | DDivD | DDivAssignD => pairs.extend([(max, 1), (max, -1), (i64::MIN + 1, -1), (i64::MIN, 1), (max, 7), (i64::MIN, 2)]),
+                TNeg | DNeg => pairs.extend([(max, 0), (i64::MIN + 1, 0), (-max, 0)]),
+            }
+            for (a, b) in pairs {
+                sink(Scenario { a, b, v: 1.0, w: 1.0, unit: (0, 1), form: Form::Int(f) });
+                n += 1;
+            }
+        }
+        vec![format!("49 units x try_from conversions x 4 values, 49 units x mixed operator forms, 16x16 boundary operands x integer/conversion forms, result-targeted pairs whose exact result is i64::MAX / MAX-1 / MIN / MIN+1 ({} cases)", n)]
     }
     fn check(s: &Scenario) -> CheckResult {
         check(s)
